@@ -405,7 +405,10 @@ class C10(Check):
             'Request.copy() + edits of the copy (PATH_INFO, QUERY_STRING, HTTP_*, cookies) inside a handler and down a '
             'nested chain with header views read before and after, Ombott() constructed inside a handler or on another '
             'thread, several applications failing onto the same shared errors_map object (alternating, nested, '
-            'cross-thread, default app); single thread, and 2-3 threads under the baton scheduler with every single '
+            'cross-thread, default app), inner handlers leaving through redirect() / abort() / a raised HTTPResponse with the '
+            'default app outside and inside (also through a third application) while the outer handler reads its '
+            'response before and after, idle request objects (construct / store through one idle request / inspect '
+            'all); single thread, and 2-3 threads under the baton scheduler with every single '
             'preemption point of thread 1 plus random multi-preemption schedules; every application is compared with '
             'the run in which the others\' operations (and its own copies) are deleted, computed in a forked child of '
             'the untouched process; non-trivial = more than one application takes part')
